@@ -10,7 +10,7 @@ EXTENDS Structure, TraceBase
 VARIABLES l, cache     \* cache: set of class names that hold a compiled pattern of their own
 vars == <<l, cache>>
 
-Pub(r) == <<r.valid, r.up, r.down, r.tgt>>
+Pub(r) == <<r.valid, r.up, r.down, r.tgt, IF "tgtq" \in DOMAIN r THEN r.tgtq ELSE << >> >>     \* tgtq: the feature table of the reported target
 \* the record is a plain SeqRecord without topology annotation (circular by default): no target extraction for that container
 Plain(e) == "plain" \in DOMAIN e /\ e.plain
 ValidateFails(e, ch) ==
